@@ -40,7 +40,9 @@ def blockAdj (nRow : Nat) (B : Nat → Nat → Rat) (i j : Nat) : Rat :=
 /-- tail of `check_weights` + `get_probs`: non-negative with positive sum, then normalised -/
 def normalise (n : Nat) (v : Nat → Rat) : Except PyErr (Nat → Rat) :=
   if (List.range n).any (fun i => decide (v i < 0)) || decide (sumTo n v ≤ 0) then .error .valueError
-  else .ok fun i => v i / sumTo n v
+  else
+    let total := sumTo n v          -- computed once
+    .ok fun i => v i / total
 
 /-- `get_probs(weights, M)` where `M` is `adjacency` or `adjacency.T` (`n × n`) -/
 def getProbs (n : Nat) (weights : Weights) (M : Nat → Nat → Rat) : Except PyErr (Nat → Rat) :=
